@@ -154,7 +154,7 @@ def run(prog: Program, ctx: Ctx) -> None:  # noqa: PLR0912,PLR0915
         rt.attrs["overloads"] = own
         ovs = [Obj(None, {"name": "f"}, label="overload 1"), Obj(None, {"name": "f"}, label="overload 2")]
         sobj = Obj(None, {"overloads": {"f": list(ovs)}})
-        robj = Obj(None, {"get_member": Native(lambda n, rt=rt: rt)})
+        robj = Obj(None, {"get_member": Native(lambda n, rt=rt: rt), "members": {"f": rt}})
         try:
             it.call(mo, robj, sobj)
             got_o: object = rt.attrs["overloads"]
